@@ -8,7 +8,19 @@
     [S (length sorted_events)] relies on); non-termination for an inconsistent order.
 
     PART B (binary heap).  [push]/[pop] are permutations (no order hypothesis), keep the
-    max-heap property [heap_ok] and [pop] returns a maximum (total preorder). *)
+    max-heap property [heap_ok] and [pop] returns a maximum (total preorder).
+
+    Status: nothing is admitted and nothing of the plan is missing.  One planned
+    statement is FALSE and was replaced: "a 3-cycle comparison makes the sort run
+    forever".  Every swap removes exactly one inversion as soon as the comparison is
+    asymmetric ([gsort_terminates_asym], no transitivity needed), so a cyclic asymmetric
+    comparison always terminates ([gsort_lt3_terminates]); divergence needs a pair that is
+    [Lt] in both directions ([gsort_lt2_diverges]).  Hence, precisely:
+    - asymmetric                     => terminates within [inv l] (< n^2/2) repeated passes;
+    - strict weak order on the list  => terminates within [length l - 1] repeated passes
+                                        ([gsort_terminates_sw]; strict total orders are the
+                                        special case [gsort_terminates]);
+    - any [Ok] result is a [desc] permutation of the input ([gsort_ok_sorted]). *)
 From Coq Require Import Bool List Arith Lia Permutation.
 From GB Require Import Num Event Cmp Heap Outcome Connect.
 Import ListNotations.
@@ -406,6 +418,7 @@ Arguments gpass [T] lt x rest.
 Arguments gsort [T] lt fuel l.
 Arguments desc [T] lt l.
 Arguments inv [T] lt l.
+Arguments cnt [T] lt x l.
 
 (** ** A4: why the consistency of the order matters.
     The requested witness "3-cycle on {0,1,2} never terminates" does NOT exist: a 3-cycle
@@ -583,7 +596,7 @@ Proof.
   - rewrite hset_hset_same. apply Permutation_refl.
   - set (l1 := hset l i (get l j)).
     assert (P1 : Permutation (get l j :: hset l1 j v) (v :: l1)).
-    { rewrite <- (hget_hset_neq l (get l j) Hne). fold l1.
+    { rewrite <- (hget_hset_neq l i j (get l j) Hne). fold l1.
       apply hset_perm_cons. unfold l1. rewrite hset_length. exact Hj. }
     assert (P2 : Permutation (get l i :: l1) (get l j :: l))
       by (apply hset_perm_cons; exact Hi).
@@ -657,7 +670,7 @@ Proof.
   intros data Hlen. unfold sift_down_to_bottom. cbv zeta.
   destruct (sift_down_loop le dflt (S (length data)) data (length data) 0)
     as [data' hole'] eqn:Hrun.
-  destruct (sift_down_loop_perm _ _ _ (get data 0) eq_refl Hlen Hrun) as (Hl & Hh & Hp).
+  destruct (sift_down_loop_perm _ _ _ _ (get data 0) _ _ eq_refl Hlen Hrun) as (Hl & Hh & Hp).
   eapply perm_trans; [apply sift_up_loop_perm; lia|].
   eapply perm_trans; [exact Hp|]. rewrite hset_hget_id. apply Permutation_refl.
 Qed.
@@ -688,7 +701,7 @@ Theorem pop_perm : forall (data : list T) top rest,
   pop le dflt data = Some (top, rest) -> Permutation data (top :: rest).
 Proof.
   intros data top rest Hpop.
-  destruct (pop_inv _ Hpop) as [[-> ->] | (rest' & last & -> & ->)].
+  destruct (pop_inv _ _ _ Hpop) as [[-> ->] | (rest' & last & -> & ->)].
   - apply Permutation_refl.
   - apply perm_skip.
     eapply perm_trans; [|apply Permutation_sym, sift_down_to_bottom_perm; cbn; lia].
@@ -723,7 +736,7 @@ Proof.
   - destruct (start <? hole) eqn:Hlt; [|rewrite hset_hset_same; reflexivity].
     apply Nat.ltb_lt in Hlt.
     assert (Hne : hole <> par hole) by (pose proof (par_lt hole); lia).
-    rewrite (hget_hset_neq data x Hne).
+    rewrite (hget_hset_neq data hole (par hole) x Hne).
     destruct (le x (get data (par hole))); rewrite hset_hset_same; reflexivity.
 Qed.
 
@@ -766,10 +779,11 @@ Proof.
       assert (Hx : get d2 p = get d hole).
       { unfold d2. apply hget_hset_eq. rewrite hset_length. exact Hpd. }
       rewrite <- Hx. apply IH; [lia | lia |].
+      assert (Hsw := fun i => hget_swap d hole p i Hh Hpd Hhp).
       split.
       * intros i Hi Hip. rewrite Hl2 in Hi.
         pose proof (par_lt i ltac:(lia)) as Hpi.
-        unfold d2. rewrite !(hget_swap _ Hh Hpd Hhp).
+        unfold d2. rewrite !Hsw.
         destruct (Nat.eq_dec i p) as [|_]; [contradiction|].
         destruct (Nat.eq_dec i hole) as [->|Hih].
         -- fold p. destruct (Nat.eq_dec p p) as [_|]; [exact Hge|contradiction].
@@ -782,7 +796,7 @@ Proof.
       * intros i Hi Hpar Hp0. rewrite Hl2 in Hi.
         pose proof (par_lt i ltac:(lia)) as Hpi.
         pose proof (par_lt p Hp0) as Hpp.
-        unfold d2. rewrite !(hget_swap _ Hh Hpd Hhp).
+        unfold d2. rewrite !Hsw.
         destruct (Nat.eq_dec i p) as [|_]; [lia|].
         destruct (Nat.eq_dec (par p) p) as [|_]; [lia|].
         destruct (Nat.eq_dec (par p) hole) as [|_]; [lia|].
@@ -799,7 +813,7 @@ Proof.
   intros data x Hok. unfold push, sift_up.
   assert (Hlen : length (data ++ [x]) = S (length data))
     by (rewrite app_length; cbn; lia).
-  apply sift_up_heap_ok; [lia | lia |]. rewrite Hlen. split.
+  apply sift_up_heap_ok; [lia | lia |]. unfold up_inv. rewrite Hlen. split.
   - intros i Hi Hne. pose proof (par_lt i ltac:(lia)) as Hpi.
     unfold hget. rewrite !app_nth1 by lia. apply Hok. lia.
   - intros i Hi Hpar _. pose proof (par_lt i ltac:(lia)). lia.
@@ -820,9 +834,9 @@ Theorem pop_max : forall (data : list T) top rest,
   forall y, In y data -> le y top = true.
 Proof.
   intros data top rest Hok Hpop y Hy.
-  destruct (In_nth _ _ dflt Hy) as (i & Hi & Hnth).
+  destruct (@In_nth T data y dflt Hy) as (i & Hi & Hnth).
   assert (Htop : get data 0 = top).
-  { destruct (pop_inv _ Hpop) as [[-> _] | (rest' & last & -> & _)]; reflexivity. }
+  { destruct (pop_inv _ _ _ Hpop) as [[-> _] | (rest' & last & -> & _)]; reflexivity. }
   rewrite <- Htop, <- Hnth. apply heap_root_max; assumption.
 Qed.
 
@@ -846,7 +860,7 @@ Proof.
     destruct (Nat.eq_dec i hole) as [->|Hih].
     + rewrite hget_hset_eq by exact Hh. rewrite hget_hset_neq by lia.
       apply (I2 c); lia.
-    + rewrite (hget_hset_neq d (get d c) (j := i)) by congruence.
+    + rewrite (hget_hset_neq d hole i (get d c)) by congruence.
       destruct (Nat.eq_dec (par i) hole) as [Eh|Nh].
       * rewrite Eh, hget_hset_eq by exact Hh. apply Hbig; assumption.
       * rewrite hget_hset_neq by congruence. apply I1; assumption.
@@ -909,7 +923,8 @@ Proof.
   intros data Hlen Hinv. unfold sift_down_to_bottom. cbv zeta.
   destruct (sift_down_loop le dflt (S (length data)) data (length data) 0)
     as [data' hole'] eqn:Hrun.
-  destruct (sift_down_loop_inv _ _ eq_refl Hlen ltac:(lia) Hinv Hrun)
+  assert (Hf : length data <= S (length data) + 0) by lia.
+  destruct (sift_down_loop_inv _ _ _ _ _ _ eq_refl Hlen Hf Hinv Hrun)
     as (Hl & Hh & [I1 I2] & Hb).
   rewrite sift_up_loop_filled.
   set (x := get data 0). set (d := hset data' hole' x).
@@ -926,7 +941,7 @@ Theorem pop_heap_ok : forall (data : list T) top rest,
   heap_ok data -> pop le dflt data = Some (top, rest) -> heap_ok rest.
 Proof.
   intros data top rest Hok Hpop.
-  destruct (pop_inv _ Hpop) as [[-> ->] | (rest' & last & -> & ->)].
+  destruct (pop_inv _ _ _ Hpop) as [[-> ->] | (rest' & last & -> & ->)].
   - intros i Hi. cbn in Hi. lia.
   - assert (Hsame : forall k, 0 < k < length (last :: rest') ->
               get (last :: rest') k = get (top :: rest' ++ [last]) k).
@@ -940,6 +955,8 @@ Proof.
 Qed.
 
 End HeapProofs.
+
+Arguments heap_ok [T] le dflt l.
 
 (* ====================================================================================== *)
 (** * Assumptions *)
